@@ -66,6 +66,8 @@ def run_case(ctx):
     negative = src.flag("negative", 5)
     t = tools.CombineT()
     t.draw(ctx, src)
+    if t.opts["in_form"] == "dot":
+        t.opts["in_form"] = "rel"
     if t.opts["in_form"].endswith("/"):
         t.opts["in_form"] = t.opts["in_form"][:-1]     # invocation forms are C13's business
     sig = {"property": ID, "entry": "cli" if t.opts["cli"] else "api"}
